@@ -309,6 +309,26 @@ def BanNeedsThresholdStrict : Prop :=
     (reached cfg e.id (suf ++ [.event e]) : Int) ≥ T ∨
     ∃ s, (run cfg init (pre ++ [.maint])).m e.id = some s ∧ s.counter ≥ s.thr
 
+/-- what does hold of the strict (literal) reading: if the round left no residue (the source's
+    counter right after it is 0, or it has no entry) then a true answer needs `T` events of the
+    source since the round -/
+theorem ban_needs_threshold_strict_partial (cfg : Cfg) (pre suf : List Op) (e : Ev) (T : Int)
+    (hT : 0 < T) (hT32 : T < 2147483648)
+    (hsuf : ∀ op ∈ suf, isMaint op = false) (huni : Uniform cfg e.id T suf)
+    (hv : verdict cfg e = .count T)
+    (hnores : ∀ s, (run cfg init (pre ++ [.maint])).m e.id = some s → s.counter ≤ 0)
+    (hans : (isSpam cfg (run cfg init (pre ++ [.maint] ++ suf)) e).1 = true) :
+    (reached cfg e.id (suf ++ [.event e]) : Int) ≥ T := by
+  rw [run_append] at hans
+  exact ban_no_residue cfg _ suf e T hT hT32 (allInR_run cfg init _ allInR_init)
+    (fun s hs => Or.inr (hnores s hs)) hsuf huni hv hans
+
+/-- threshold 2: an unbanned source (one event, round resets it to 0) needs two events again -/
+example : (isSpam cfg2 (run cfg2 init ([.event (ev1 10)] ++ [.maint] ++ [.event (ev1 20)])) (ev1 30)).1 = true ∧
+    (∀ s, (run cfg2 init ([.event (ev1 10)] ++ [.maint])).m (ev1 30).id = some s → s.counter ≤ 0) ∧
+    (reached cfg2 [49] ([.event (ev1 20)] ++ [.event (ev1 30)]) : Int) ≥ 2 := by
+  decide
+
 def cfg3 : Cfg := ⟨3, 1, 1000, true, [], []⟩
 
 /-- threshold 3, unban 1: three events ban the source (counter 3), two more arrive while it is
